@@ -49,6 +49,7 @@ func init() {
 		ruleShapeFaults(shapeConfig{label: "orb core", keep: inPkgs("orb."), floor: 42}),
 		ruleMemberLoops(inPkgs("orb."), 17, 0),
 		ruleBoxPredicates(orbBoundPredicates),
+		ruleEqualSameKind,
 	)
 
 	register("C01",
